@@ -349,7 +349,7 @@ def run_inkdrive(cases, exe=None, timeout=600, shards=None, extra_args=()):
             rc, o = -9, ""
         os.remove(p)
         res = []
-        for line in o.splitlines():
+        for line in o.split("\n"):
             try:
                 res.append(json.loads(line))
             except json.JSONDecodeError:
